@@ -3,6 +3,7 @@ PROP = {
     "smt": [],
     "technique": "bounded model checking (Kani/CBMC) of emit::Frame / EnterGuard / FrameFuture and the Ctxt default methods over symbolic well-nested programs",
     "functions": [
+        "impl Ctxt for {&C, Option<C>, Box<C>, Arc<C>, dyn ErasedCtxt, dyn ErasedCtxt + Send + Sync}: every method forwards to the same method of the wrapped context (c03c04_q_wrapper_*)",
         "emit::frame::{Frame::{current, push, root, disabled, with, enter, call, in_fn, in_future, from_parts, drop}, EnterGuard::drop, FrameFuture::poll}",
         "emit_core::ctxt::{Ctxt::open_push (default), open_disabled (default), impl Ctxt for &C, impl Ctxt for Option<C>, internal::Slot}",
     ],
